@@ -7,6 +7,8 @@ Generic runner.  A property module `props/cxx.py` provides
   cases(rng, tier)        -> iterable of JSON-able case dicts
   run_impl(case)          -> observation dict from the REAL code (exceptions mapped)
   run_model(drv, case)    -> observation dict from the Lean model driver
+                             (or run_model(drv, case, impl) when the model needs what was
+                              recorded from the real run, e.g. generator draws, as input)
   compare(case, impl, model) -> list of disagreement strings
   predicates(case, impl)  -> list of core.Failure (property clauses false on the real code)
   optional: regenerate()  (translator; raises TranslatorError)
@@ -59,6 +61,18 @@ def _load_corpus(prop_id):
     return out
 
 
+def _run_model(mod, drv, case, impl):
+    """`run_model(drv, case)`, or `run_model(drv, case, impl)` if the module takes three
+    arguments (recorded randomness / observed states are *input* of the model)."""
+    import inspect
+
+    try:
+        n = len(inspect.signature(mod.run_model).parameters)
+    except (TypeError, ValueError):
+        n = 2
+    return mod.run_model(drv, case, impl) if n >= 3 else mod.run_model(drv, case)
+
+
 def _impl_wrapper(args):
     modname, case = args
     mod = importlib.import_module(modname)
@@ -82,7 +96,7 @@ def replay(mod, path):
     print("implementation:", json.dumps(impl, default=str)[:2000])
     try:
         drv = core.Driver()
-        model = mod.run_model(drv, case)
+        model = _run_model(mod, drv, case, impl)
         drv.close()
         print("model:", json.dumps(model, default=str)[:2000])
         dis = mod.compare(case, impl, model)
@@ -201,7 +215,7 @@ def main(argv):
                 failures.append(f)
         if drv is not None:
             try:
-                model = mod.run_model(drv, case)
+                model = _run_model(mod, drv, case, impl)
             except Exception as e:
                 disagreements.append({"case": case, "what": ["model driver error: " + repr(e)]})
                 return
@@ -319,6 +333,11 @@ def main(argv):
         "wall_s": round(wall, 2),
         "violations": len(violation_lines),
     }
+    if hasattr(mod, "exhaustive"):
+        space = mod.exhaustive(tier)
+        if space:
+            ev["coverage"]["exhaustive"] = True
+            ev["coverage"]["exhaustive_space"] = space
     core.write_evidence(prop_id, ev)
     print(f"{prop_id} {tier}: theorems {discharged}/{len(thms)}, cases {evaluations}"
           f" (+{searched} search), disagreements {len(disagreements)}, "
